@@ -33,13 +33,13 @@ RULE = ("arrival sequences of 60-160 events over <= 40 distinct reliable packet 
         ". Round-5 additions: PacketAck without blocks that only carries appended acks (what a proxy leaves after taking its own ids out); the client alternates between deferred and eager body parsing"
         ". Rounds 6-7: refused sends (unset variable, value that does not fit, unknown block) before good ones; half of the sequences get a second life (DisableSimulator, region registered again at the same address, peer ids start over); acknowledgements riding on retransmissions; undecodable client emissions are violations"
         ". Round 9: subscribers through the notifier object register() hands out (taken before anybody subscribed); in half the sequences the first subscriber of each level fails on every message, with RuntimeError or asyncio.CancelledError"
-        ". Round 10: the peer's StartPingCheck (OldestUnacked = next id / newest seen / 0) delivered on a running loop, duplicates of older packets afterwards; circuits numbering from just below 2**16, 2**24, 2**31")
+        ". Round 10: the peer's StartPingCheck (OldestUnacked = next id / newest seen / 0) delivered on a running loop, duplicates of older packets afterwards; circuits numbering from just below 2**16, 2**24, 2**31. Round 11: subscriptions with options (predicate, one-shot, one-shot with a predicate that turns down earlier messages)")
 ASSUMPTIONS = [
     "at most 40 distinct reliable ids per ordinary run; separate long runs send more reliable packets than the de-duplication window holds and then retransmit packets that are still inside it (nothing is demanded for packets that left the window)",
     "the peer's messages are template messages allowed over UDP; the session manager is a stub (no HTTP)",
     "retry budget is the default 10 in half of the runs and 3 in the others",
 ]
-MUST_REACH = {"pings_from_the_peer": 100, "sequences_numbering_from_just_below_a_power_of_two": 50, "sequences_with_a_first_subscriber_raising_cancelled": 20, "acks_riding_on_retransmissions": 30, "regions_registered_again_at_the_same_address": 10, "refused_sends_before_good_ones": 30, "packetacks_with_only_appended_acks": 30, "reliable_arrivals": 1000, "duplicate_arrivals": 200, "unreliable_arrivals": 500, "acks_sent_checked": 1000,
+MUST_REACH = {"one_shot_predicates_that_turned_down_earlier_messages": 50, "pings_from_the_peer": 100, "sequences_numbering_from_just_below_a_power_of_two": 50, "sequences_with_a_first_subscriber_raising_cancelled": 20, "acks_riding_on_retransmissions": 30, "regions_registered_again_at_the_same_address": 10, "refused_sends_before_good_ones": 30, "packetacks_with_only_appended_acks": 30, "reliable_arrivals": 1000, "duplicate_arrivals": 200, "unreliable_arrivals": 500, "acks_sent_checked": 1000,
               "sends_completed_by_appended_ack": 50, "sends_completed_by_packetack": 50, "budgets_exhausted": 5,
               "region_level_duplicates_checked": 100, "reordered_first_arrivals": 100, "session_level_duplicates_checked": 100, "ids_checked_increasing": 1000, "long_circuit_retransmissions": 100, "sends_of_prenumbered_messages": 50, "sequences_with_fractional_resend_interval": 10}
 
@@ -117,6 +117,24 @@ def _run_sequence(ctx, rng, seed, reuse=None):
             if msg.name == "CompletePingCheck":
                 key = (level, kind, msg.packet_id, bool(msg.reliable))
                 calls[key] = calls.get(key, 0) + 1
+                if kind == "named":
+                    delivered_order.setdefault(level, []).append((msg.packet_id, bool(msg.reliable)))
+        return sub
+
+    delivered_order = {}   # level -> [(packet id, reliable)] in the order the plain named subscriber saw them
+    opt_calls = {}         # (level, kind) -> [(packet id, reliable)]
+    pred_mod = 2 + seed % 3
+
+    def pred_a(msg):
+        return msg.packet_id % 2 == 0
+
+    def pred_b(msg):
+        return msg.packet_id % pred_mod == pred_mod - 1
+
+    def mk_opt(level, kind):
+        def sub(msg):
+            if msg.name == "CompletePingCheck":
+                opt_calls.setdefault((level, kind), []).append((msg.packet_id, bool(msg.reliable)))
         return sub
 
     # subscribers come in more than one way: by name, by wildcard, and through the notifier object register() hands out (taken
@@ -138,6 +156,11 @@ def _run_sequence(ctx, rng, seed, reuse=None):
         handler.subscribe("CompletePingCheck", mk_sub(level, "named"))
         handler.subscribe("*", mk_sub(level, "wildcard"))
         handle.subscribe(mk_sub(level, "handle"))
+        # Round 11: subscriptions with options - a permanent one with a predicate, a one-shot one, and a one-shot one with a
+        # predicate (served by the first delivered message the predicate accepts, not spent by ones it turns down)
+        handle.subscribe(mk_opt(level, "pred"), predicate=pred_a)
+        handle.subscribe(mk_opt(level, "once"), one_shot=True)
+        handle.subscribe(mk_opt(level, "once-pred"), one_shot=True, predicate=pred_b)
     arrivals = {}            # packet id -> number of arrivals (reliable)
     unrel_arrivals = {}
     next_peer_id = 1
@@ -436,6 +459,25 @@ def _run_sequence(ctx, rng, seed, reuse=None):
                                   dict(wit_base, packet_id=pid, arrivals=n, delivered=c))
                 else:
                     ctx.nontrivial(("unrel", n > 1, level, kind))
+    # subscriptions with options, judged against what the plain named subscriber of the same level was given (itself judged above)
+    for level in ("session", "region"):
+        order = delivered_order.get(level, [])
+        want = {
+            "pred": [d for d in order if d[0] % 2 == 0],
+            "once": order[:1],
+            "once-pred": [d for d in order if d[0] % pred_mod == pred_mod - 1][:1],
+        }
+        for kind, exp in want.items():
+            got = opt_calls.get((level, kind), [])
+            ctx.count("optioned_subscribers_checked")
+            if exp:
+                ctx.count("optioned_subscribers_served")
+            if kind == "once-pred" and exp and order and order[0] != exp[0]:
+                ctx.count("one_shot_predicates_that_turned_down_earlier_messages")
+            if got != exp:
+                ctx.violation(f"optioned-subscriber:{level}:{kind}", "a subscriber registered with one_shot / predicate options was not "
+                              "given exactly the delivered messages its options ask for",
+                              dict(wit_base, level=level, kind=kind, got=got[:10], expected=exp[:10], delivered=order[:12], pred_mod=pred_mod))
     ctx.ev()
     ctx.nontrivial(("sequence", tuple(h[:2] for h in history)))
     if len(ctx.samples) < 2:
